@@ -102,24 +102,23 @@ Proof.
   { apply andb_false_iff in Ht. destruct Ht as [Ht | Ht].
     - apply NoTTL_alive. apply has_ttl_false. exact Ht.
     - apply orb_false_iff in Ht. destruct Ht as [Ht _]. eapply any_expired_false; eauto. }
-  assert (Hnt : c08_update_kind o = true -> e = EDup -> NoUnique (idx c) \/ NoTTL (idx c)).
-  { intros Hk He. subst e. rewrite Hk in Ht. simpl in Ht.
+  assert (Hnt : c08_update_kind o = true -> NoUnique (idx c) \/ NoTTL (idx c)).
+  { intros Hk. rewrite Hk in Ht. simpl in Ht.
     apply andb_false_iff in Ht. destruct Ht as [Ht | Ht].
     - right. apply has_ttl_false. exact Ht.
     - apply orb_false_iff in Ht. destruct Ht as [_ Ht]. left. apply has_unique_false. exact Ht. }
   clear Ht.
-  assert (Hu' : c08_update_kind o = true -> e <> EDup -> NoUnique (idx c)).
-  { intros Hk Hne. unfold c08_norollback_step in Hu. rewrite Hk, Hx in Hu.
-    apply err_eqb_dup in Hne. rewrite Hne in Hu. simpl in Hu.
-    apply has_unique_false. exact Hu. }
+  assert (Hu' : c08_update_kind o = true -> e = EUnmodelled -> NoUnique (idx c)).
+  { intros Hk He. subst e. unfold c08_norollback_step in Hu. rewrite Hk, Hx in Hu.
+    simpl in Hu. apply has_unique_false. exact Hu. }
   clear Hu.
   destruct o; simpl in Hsw; try discriminate; simpl in Hs.
   - eauto using insert_one_fail.
   - destruct multi; [ discriminate | ]. eapply update_op_fail; eauto.
   - eapply replace_op_fail; eauto.
   - apply (find_and_modify_fail pre5 c f proj sort k c' e Hs Hi Hr Hr' Hal).
-    + intros He Hk. apply Hnt; [ | exact He ]. destruct k; simpl in *; congruence.
-    + intros Hne Hk. apply Hu'; [ | exact Hne ]. destruct k; simpl in *; congruence.
+    + intros Hk. apply Hnt. destruct k; simpl in *; congruence.
+    + intros He Hk. apply Hu'; [ | exact He ]. destruct k; simpl in *; congruence.
     + unfold c08_after_step in Ha. destruct k as [ | u up a | r up a ]; simpl; try reflexivity;
         destruct a; simpl in Ha; congruence.
 Qed.
